@@ -4,6 +4,7 @@ Reference reading from doc/pygopherd.txt (GOPHERMAP.BUCKGOPHERMAPHANDLER) and
 doc/standards/gophermap.txt; no code shared with pygopherd.handlers.gophermap."""
 from __future__ import annotations
 
+import os
 import typing
 
 from vf import common, crawl, driver, reqs, validate
@@ -102,7 +103,7 @@ def to_class(t: tuple) -> tuple:
 
 def run_case(chk: Check, sc: Scratch, idx: int) -> None:
     rng = chk.subrng("case", idx)
-    depth = rng.choice([b"", b"d1", b"d1/d2", b"d1/d2/d3"])
+    depth = rng.choice([b"", b"d1", b"d1/d2", b"d1/d2/d3", b"site.gophermap", b"d1/old.gophermap"])
     as_file = rng.random() < 0.25
     existing = [b"real.txt", b"pic.gif", b"sub dir", b"page.html"]
     t = Tree()
@@ -173,6 +174,28 @@ def run_case(chk: Check, sc: Scratch, idx: int) -> None:
                 chk.witness("C09/protocols-disagree:%s" % reqs.VIEWS[view][0],
                             dict(sample, view=view, index=i, reference=a[i:i + 2], this=b[i:i + 2], n_ref=len(a), n_this=len(b)))
                 return
+        # the map is edited in place (same file, directory untouched): the next listing must follow it
+        text2 = gen_map(chk.subrng("case2", idx), existing, allow_relative=not as_file)
+        mpath = os.path.join(os.fsencode(root), pre + (b"menu.gophermap" if as_file else b"gophermap"))
+        dpath = os.path.dirname(mpath)
+        dst = os.stat(dpath)
+        with open(mpath, "r+b") as fp:
+            fp.seek(0)
+            fp.write(text2)
+            fp.truncate()
+        os.utime(dpath, ns=(dst.st_atime_ns, dst.st_mtime_ns))
+        resp2 = site.request(req)
+        v2 = validate.validate(resp2, req)
+        want2 = gophermap_ref(text2, sel)
+        got2 = []
+        if v2.ok and v2.klass == "menu":
+            for d in v2.parsed:
+                got2.append(("i", d["name"], None, None, None) if d["type"] == "i" else (d["type"], d["name"], d["selector"], d["host"], d["port"]))
+        if got2 != want2:
+            chk.witness("C09/listing-does-not-follow-edited-gophermap", dict(sample, edited_to=text2[:300], got=got2[:3], want=want2[:3],
+                                                                              stale=(got2 == want)))
+            return
+        chk.count("in_place_edits_followed")
         kinds = tuple(sorted({x[0] for x in ref_classes}))
         chk.case((as_file, len(depth.split(b"/")) if depth else 0, kinds, min(len(want), 10), b"\r\n" in text),
                  dict(sample, lines=len(want)) if idx % 60 == 0 else None)
